@@ -3,3 +3,4 @@ import GtirbProofs.Props.C07
 import GtirbProofs.Props.C08
 import GtirbProofs.Tables
 import GtirbProofs.Props.C11
+import GtirbProofs.Props.C19
